@@ -6,8 +6,10 @@ use super::*;
 
 include!("/verif/harness/common.rs");
 
-/// An optional token of 0..2 symbolic bytes in 'a'..'c' ("", "a", "ab", "A"-free): every pair of
-/// short tokens, so equal / prefix / different all occur.
+/// An optional token of 0..2 symbolic bytes over {a, b, '*', ',', ' '}: every pair of short tokens, so
+/// equal / prefix / different all occur, and so do "*", "a,", ",a", " a" - shapes that precondition
+/// *headers* read as wildcard, list or padding and that a CAS token comparison must not (widened after
+/// seeded change C07-8, which compared the token with If-Match list syntax).
 struct Tok {
     buf: [u8; 2],
     len: usize,
@@ -17,7 +19,10 @@ impl Tok {
     fn any() -> Self {
         let b0: u8 = kani::any();
         let b1: u8 = kani::any();
-        kani::assume(b0 >= b'a' && b0 <= b'c' && b1 >= b'a' && b1 <= b'c');
+        // letters plus the characters HTTP precondition headers give a meaning to (wildcard, list
+        // separator, padding): a CAS token is opaque and must be compared exactly, whatever it contains
+        let in_alphabet = |b: u8| b == b'a' || b == b'b' || b == b'*' || b == b',' || b == b' ';
+        kani::assume(in_alphabet(b0) && in_alphabet(b1));
         let len: usize = kani::any();
         kani::assume(len <= 2);
         Tok { buf: [b0, b1], len, some: kani::any() }
@@ -38,11 +43,12 @@ impl Tok {
 // K1 -------------------------------------------------------------------------------------------
 // @check id=C07 tier=quick cap=600 role=cas_iff
 // @fns check_update_version
-// @bound the four Option<String> (current e_tag, current generation, update.e_tag, update.version): each None or a string of 0..2 symbolic bytes in a..c
-// @stubs alloc::fmt::format -> String::new() (error messages only)
+// @bound the four Option<String> (current e_tag, current generation, update.e_tag, update.version): each None or a string of 0..2 symbolic bytes over {a, b, '*', ',', ' '}
+// @stubs alloc::fmt::format -> String::new() (error messages only); core::slice::memchr::memchr -> naive loop (not called by the current code: it keeps a split-based comparison, as in seeded change C07-8, within reach - 670 s instead of running out of 18 GB)
 #[kani::proof]
 #[kani::unwind(4)]
 #[kani::stub(alloc::fmt::format, fmt_stub)]
+#[kani::stub(core::slice::memchr::memchr, memchr_stub)]
 fn c07_cas_update_iff_token_is_current() {
     let cur_tag = Tok::any();
     let cur_gen = Tok::any();
@@ -68,6 +74,8 @@ fn c07_cas_update_iff_token_is_current() {
     kani::cover!(r.is_ok() && !upd_ver.some, "accepted without version clause");
     kani::cover!(r.is_err() && cur_tag.same(&upd_tag), "rejected by the version clause only");
     kani::cover!(r.is_err() && upd_tag.some && cur_tag.some && cur_tag.len == 2 && upd_tag.len == 1 && cur_tag.buf[0] == upd_tag.buf[0], "rejected: token is a strict prefix");
+    kani::cover!(r.is_err() && cur_tag.some && upd_tag.some && upd_tag.len == 1 && upd_tag.buf[0] == b'*', "a `*` token is not a wildcard");
+    kani::cover!(r.is_err() && cur_tag.some && cur_tag.len == 1 && upd_tag.some && upd_tag.len == 2 && upd_tag.buf[0] == cur_tag.buf[0] && upd_tag.buf[1] == b',', "a list containing the current token is not the current token");
     std::mem::forget((r, update, current_e_tag, current_generation, loc));
 }
 
